@@ -13,6 +13,7 @@ mod d_cfg;
 mod d_dlint;
 mod d_embed;
 mod d_entry;
+mod d_limits;
 mod d_pipe;
 mod d_rx;
 mod d_rxv8;
@@ -130,6 +131,7 @@ fn main() {
     "embed" => d_embed::run(&args),
     "cfg" => d_cfg::run(&args),
     "scope" => d_scope::run(&args),
+    "limits" => d_limits::run(&args),
     "dlint" => d_dlint::run_all(&args),
     x => {
       eprintln!("unknown sub {}", x);
